@@ -155,6 +155,9 @@ fn corpus(tier: Tier) -> Vec<(String, bool)> {
     take("C09", n, &|_| true, false);
     out.push(("@export Pairs = keys : K '=' values : V { ',' keys : K '=' values : V } $ ;\n@string K = 'k' ;\n@string V = 'v' ;\n".into(), true));
     out.push(("@export R = f : K ( f : K g : V ) [ g : V f : K ] ;\n@string K = 'k' ;\n@string V = 'v' ;\n".into(), true));
+    // quotes, backslashes and '#' inside literals (anything that scans the text for comments must read literals right)
+    out.push(("@export Root = a:A b:B ;\n@string A = '\\\\' ;\n@string B = '#' 'x' ;\n".into(), true));
+    out.push(("@export Root = a:A b:B ; # c '\n@string A = \"'\" '\\'' ;\n@string B = \"#\" '\\\\' '#' \"x\" 'y' ;\n".into(), true));
     // line endings: CRLF files, and a literal that spans a line break (raw CR LF inside the quotes)
     out.push(("@export Root = 'a' x:X ;\r\nX = 'x' ;\r\n".into(), false));
     out.push(("@export Root = 'a\r\nb' x:X ;\r\nX = \"x\ry\" | 'z\n' ;\r\n".into(), true));
@@ -278,6 +281,24 @@ pub fn run(tier: Tier, cli: &str) {
                         let got = if o.success() { std::fs::read_to_string(&dest).map(|s| normalise(&s, p)).map_err(|e| e.to_string()) } else { Err("Compile::run failed".into()) };
                         cmp(&mut st, &format!("compile-file run {run} prefix {:?}", p), got);
                         if run == 0 {
+                            // the destination holds the compilation of an earlier version of the grammar file that differs in
+                            // the content of its last literal only (an edit near the end of the file)
+                            if let Some(end) = text.rfind('\'') {
+                                if let Some(start) = text[..end].rfind('\'') {
+                                    let older = format!("{}q{}", &text[..start + 1], &text[end..]);
+                                    if older != *text {
+                                        std::fs::write(&gfile, &older).unwrap();
+                                        let _ = std::fs::remove_file(&dest);
+                                        let o1 = Command::new(&exe).arg("c16gen").arg("file").arg(&gfile).arg(&dest).arg(p).args(&dargs).stdout(Stdio::null()).stderr(Stdio::null()).status().unwrap();
+                                        std::fs::write(&gfile, text).unwrap();
+                                        if o1.success() {
+                                            let o = Command::new(&exe).arg("c16gen").arg("file").arg(&gfile).arg(&dest).arg(p).args(&dargs).stdout(Stdio::null()).stderr(Stdio::null()).status().unwrap();
+                                            let got = if o.success() { std::fs::read_to_string(&dest).map(|s| normalise(&s, p)).map_err(|e| e.to_string()) } else { Err("Compile::run failed".into()) };
+                                            cmp(&mut st, &format!("compile-file-after-edit (last literal was 'q') prefix {:?}", p), got);
+                                        }
+                                    }
+                                }
+                            }
                             // the same call with something already at the destination: nothing, the start of the right file
                             // (an interrupted write), a complete file of another compilation
                             if let Ok(full) = std::fs::read(&dest) {
